@@ -685,6 +685,36 @@ func (v *Verifier) axiomsFor(r *Run, terms []*Term, extra []*Term) []*Term {
 			Forall([]*Term{a, b, cc}, Implies(And(lt(a, b), lt(b, cc)), lt(a, cc))),
 			Forall([]*Term{a, b}, Or(App("=", SBool, a, b), lt(a, b), lt(b, a))))
 	}
+	if _, ok := c.ufs["strcat"]; ok {
+		a, b := Bound("ax.a", SStr), Bound("ax.b", SStr)
+		out = append(out, Forall([]*Term{a, b}, App("=", SBool, App("strlen", SInt, App("strcat", SStr, a, b)),
+			App("+", SInt, App("strlen", SInt, a), App("strlen", SInt, b)))))
+		DeclareUF("strlen", SInt, SStr)
+	}
+	if _, ok := c.ufs["substr"]; ok {
+		a, lo, hi := Bound("ax.a", SStr), Bound("ax.lo", SInt), Bound("ax.hi", SInt)
+		out = append(out, Forall([]*Term{a, lo, hi}, Implies(And(Le(IntLit(0), lo), Le(lo, hi), Le(hi, App("strlen", SInt, a))),
+			App("=", SBool, App("strlen", SInt, App("substr", SStr, a, lo, hi)), App("-", SInt, hi, lo)))))
+		DeclareUF("strlen", SInt, SStr)
+	}
+	if _, ok := c.ufs["str_of_rune"]; ok {
+		rr := Bound("ax.r", SInt)
+		sl := App("strlen", SInt, App("str_of_rune", SStr, rr))
+		out = append(out, Forall([]*Term{rr}, And(Le(IntLit(1), sl), Le(sl, IntLit(4)),
+			Implies(And(Le(IntLit(0), rr), Lt(rr, IntLit(128))), App("=", SBool, sl, IntLit(1))))))
+		DeclareUF("strlen", SInt, SStr)
+	}
+	if _, ok := c.ufs["strlen"]; !ok {
+		// the axioms above may have introduced strlen
+		c2 := newSigCollector()
+		for _, t := range out {
+			c2.walk(t)
+		}
+		if _, ok2 := c2.ufs["strlen"]; ok2 {
+			s := Bound("ax.s", SStr)
+			out = append(out, Forall([]*Term{s}, Ge(App("strlen", SInt, s), IntLit(0))))
+		}
+	}
 	var lits []string
 	for n := range c.ufs {
 		if strings.HasPrefix(n, "strlit!") {
